@@ -319,6 +319,14 @@ func workerMain(chk Check, o *Options) int {
 			defer wg.Done()
 			defer func() { <-sem }()
 			c := &Ctx{T: tape.New(o.Seed, uint64(i)), S: out.Stats, Log: &EvLog{}, Tier: o.Tier, Seed: o.Seed, Run: uint64(i)}
+			if td := os.Getenv("VERIF_TRACE_DIR"); td != "" {
+				// determinism self-test diagnosis: keep every run's event log so that a hash mismatch
+				// between two processes can be diffed (never set by a registered check)
+				c.Log.Keep(true)
+				defer func() {
+					os.WriteFile(filepath.Join(td, fmt.Sprintf("%s-run%d.trace", o.Prop, i)), []byte(strings.Join(c.Log.Lines(), "\n")+"\n"), 0o644)
+				}()
+			}
 			if p.PerWorkerParallel == 1 {
 				os.WriteFile(o.Out+".cur", []byte(strconv.Itoa(i)), 0o644)
 			}
@@ -501,9 +509,37 @@ func coordinatorMain(chk Check, o *Options) int {
 				fatal2("write replay: %v", err)
 			}
 			// fresh-process replay before reporting
-			cmd := exec.Command(self, "-prop", id, "-tier", o.Tier, "-replay", path)
-			outb, _ := cmd.CombinedOutput()
-			code := cmd.ProcessState.ExitCode()
+			replayChild := func() (int, []byte) {
+				cmd := exec.Command(self, "-prop", id, "-tier", o.Tier, "-replay", path)
+				outb, _ := cmd.CombinedOutput()
+				return cmd.ProcessState.ExitCode(), outb
+			}
+			code, outb := replayChild()
+			if code != 1 && !rf.Violation.Uncontrolled {
+				rf.Tape, rf.Minimised = fv.Tape, false // the tape as recorded by the worker, not a shrunk one
+				// The run does not reproduce on its own: the code under test may carry state from one call to
+				// the next (a process-wide cache or pool). Replay the worker's earlier runs first, then shorten
+				// that history while the same class still reproduces in a fresh process.
+				var hist []uint64
+				for i := uint64(rf.Worker); i < fv.Run; i += uint64(p.Workers) {
+					hist = append(hist, i)
+				}
+				rf.History = hist
+				writeJSONAtomic(path, rf)
+				if code, outb = replayChild(); code == 1 {
+					deadline := time.Now().Add(time.Duration(p.ShrinkSec) * time.Second)
+					for k := 1; k < len(hist) && time.Now().Before(deadline); k *= 2 {
+						rf.History = hist[len(hist)-k:]
+						writeJSONAtomic(path, rf)
+						if c2, _ := replayChild(); c2 == 1 {
+							break
+						}
+						rf.History = hist
+						writeJSONAtomic(path, rf)
+					}
+					fmt.Printf("note: run %d reproduces only after %d earlier run(s) of its worker in the same process: the code under test keeps state across calls\n", fv.Run, len(rf.History))
+				}
+			}
 			if code != 1 {
 				fmt.Printf("REPLAY-DIVERGED property=%s replay=%s exit=%d\n%s\n", id, path, code, tail(string(outb), 2000))
 				fatal2("fresh-process replay of %s did not reproduce the violation", path)
@@ -797,6 +833,20 @@ func replayMain(chk Check, o *Options) int {
 		}
 		fmt.Printf("replay (uncontrolled mode): class %s not reproduced in 5 attempts\n", rf.Violation.Class)
 		return 0
+	}
+	for _, hr := range rf.History {
+		hc := &Ctx{T: tape.New(o.Seed, hr), S: NewStats(), Log: &EvLog{}, Tier: o.Tier, Seed: o.Seed, Run: hr, Replay: true}
+		func() {
+			if dn, err := os.OpenFile(os.DevNull, os.O_WRONLY, 0); err == nil {
+				saved := os.Stdout
+				os.Stdout = dn
+				defer func() { os.Stdout = saved; dn.Close() }()
+			}
+			execRun(chk, hc) // outcome irrelevant: it only recreates the process state the finding run started from
+		}()
+	}
+	if len(rf.History) > 0 {
+		fmt.Printf("replay: re-executed %d earlier run(s) of worker %d first (history-dependent finding)\n", len(rf.History), rf.Worker)
 	}
 	if rf.Generate {
 		c = &Ctx{T: tape.New(o.Seed, rf.Run), S: NewStats(), Log: &EvLog{}, Tier: o.Tier, Seed: o.Seed, Run: rf.Run, Replay: true}
